@@ -3,6 +3,7 @@ package operator
 import (
 	"fmt"
 	"net"
+	"strings"
 	"time"
 
 	"github.com/pkg/errors"
@@ -803,9 +804,17 @@ func Regex(ctx *context.Context, left, right value.Value) (value.Value, error) {
 	}
 }
 
+// matchesAcl reports whether ip matches the ACL: the most specific (longest prefix) entry
+// containing the address decides, and it matches unless that entry is negated.
+// An entry without a mask is a single host (/32 for IPv4, /128 for IPv6).
 func matchesAcl(acl value.Acl, ip net.IP) (bool, error) {
+	best := -1 // longest prefix length among the entries containing ip
+	matched := false
 	for _, entry := range acl.Value.CIDRs {
 		var mask int64 = 32
+		if strings.Contains(entry.IP.Value, ":") {
+			mask = 128
+		}
 		if entry.Mask != nil {
 			mask = entry.Mask.Value
 		}
@@ -815,13 +824,22 @@ func matchesAcl(acl value.Acl, ip net.IP) (bool, error) {
 		if err != nil {
 			return false, fmt.Errorf("failed to parse CIDR %s", cidr)
 		}
-		if ipnet.Contains(ip) {
-			return true, nil
-		} else if entry.Inverse != nil && entry.Inverse.Value {
-			return true, nil
+		if !ipnet.Contains(ip) {
+			continue
+		}
+		ones, bits := ipnet.Mask.Size()
+		if bits == 128 && ones >= 96 && ipnet.IP.To4() != nil {
+			ones -= 96 // IPv4-mapped IPv6 network: compare as the IPv4 prefix length
+		}
+		negated := entry.Inverse != nil && entry.Inverse.Value
+		if ones > best {
+			best = ones
+			matched = !negated
+		} else if ones == best && negated {
+			matched = false
 		}
 	}
-	return false, nil
+	return matched, nil
 }
 
 func NotRegex(ctx *context.Context, left, right value.Value) (value.Value, error) {
